@@ -13,7 +13,7 @@ if subprocess.run(["git", "-C", REPO, "status", "--porcelain"], capture_output=T
 total_bad = 0
 for d in sys.argv[1:]:
     sid = os.path.basename(d.rstrip("/"))
-    a = subprocess.run(["git", "-C", REPO, "apply", os.path.join(d, "patch.diff")], capture_output=True, text=True)
+    a = subprocess.run(["git", "-C", REPO, "apply", os.path.abspath(os.path.join(d, "patch.diff"))], capture_output=True, text=True)
     if a.returncode != 0:
         print("%-8s PATCH DOES NOT APPLY: %s" % (sid, a.stderr.strip()[:100]))
         continue
